@@ -28,6 +28,10 @@ type ParserConfig struct {
 	Name     string // e.g. "tm:file", "js-ts:module"
 	Lang     string
 	TypeName func(t int) string
+	// Prefix is put in front of every enumerated input (tm only: the same header / lexer / parser
+	// preambles as in parsers/tm/parser_test.go, without them nearly every input is rejected
+	// before the interesting rules are reached). Recorded cases contain the full text.
+	Prefix string
 	// Run parses src and returns the parser's error (nil = accepted).
 	Run func(ctx context.Context, src string, s Sink) error
 }
@@ -71,11 +75,19 @@ func jsName(t int) string   { return js.NodeType(t).String() }
 func jsonName(t int) string { return json.NodeType(t).String() }
 func testName(t int) string { return test.NodeType(t).String() }
 
+// Preambles used by parsers/tm/parser_test.go.
+const (
+	TMLexerPre  = "language l(a); :: lexer\n"
+	TMParserPre = "language l(a); :: lexer a = /abc/ :: parser "
+)
+
 // ParserConfigs lists the shipped event parsers under check (C20 a).
 var ParserConfigs = []ParserConfig{
 	{Name: "tm:file", Lang: "tm", TypeName: tmName, Run: runTM(false, false)},
 	{Name: "tm:file-stop", Lang: "tm", TypeName: tmName, Run: runTM(false, true)}, // error handler refuses to recover
 	{Name: "tm:nonterm", Lang: "tm", TypeName: tmName, Run: runTM(true, false)},
+	{Name: "tm:file/lexer", Lang: "tm", TypeName: tmName, Run: runTM(false, false), Prefix: TMLexerPre},
+	{Name: "tm:file/parser", Lang: "tm", TypeName: tmName, Run: runTM(false, false), Prefix: TMParserPre},
 	{Name: "js:module", Lang: "js", TypeName: jsName, Run: runJS(js.Javascript, "module", false)},
 	{Name: "js:module-stop", Lang: "js", TypeName: jsName, Run: runJS(js.Javascript, "module", true)},
 	{Name: "js-ts:module", Lang: "js", TypeName: jsName, Run: runJS(js.Typescript, "module", false)},
